@@ -20,9 +20,10 @@ that was not accepted/committed) and the output keeps the interface law. `T` is 
 (`Trans.idT` = identity for the 1:1 stages, `extSpec`/`redSpec` for the width changers, characterised below).
 Proofs: `C16/Lemmas.lean` (generic refinement arguments + composition), `Stages.lean`, `FifoProof.lean`, `Width.lean`,
 `Chains.lean`, `Live.lean`, `Live2.lean`, `FifoLive.lean`, `Bits.lean`, `WidthP.lean`.
-Packet.h `widthExtend` is modelled (`widthExtendP`) and specified (`pExtSpec`) but has no theorem: on streams with an explicit
-`Sop` the code as written does not meet the specification (its sop flag is cleared while the group's last beat is absent or
-stalled) — the correspondence check reports that on the real code.
+Packet.h `widthExtend` is modelled (`widthExtendP`) with the *repaired* sop handler
+(harness/examples/c16_fix_widthextend_sop.diff.txt: the sop flag changes only with a transfer); the handler as found
+(`flagInstantSet(in.sop, isLast | eop)` evaluated in every cycle) does not meet the specification — harness mode 8 reports
+that on a tree without the repair (`seq:pext:sop`, `law:pext`, `frame:*`).
 
 Not in this file (see the check's evidence / report): the tie of each model to the C++ is by correspondence
 (harness/c16.cpp | Driver/C16.lean); the FIFO's pointer/memory storage is abstracted to a list (that is property C15).
@@ -126,6 +127,27 @@ theorem widthReduce_slice_meta (ratio w bw ek i : Nat) (x : Beat) :
 theorem widthReduce_concrete_preserves (ratio w bw ek : Nat) (hr : 0 < ratio) :
     Good (Desc.pred ratio w bw ek).stage (pRedSpec ratio (pRedSlice ratio w bw ek) (pRedFin ratio w bw ek)) okTrue :=
   good_widthReduceP _ _ ratio hr (pRedFin_last ratio w bw ek hr)
+
+/-- Packet.h `widthExtend` (repaired sop handler): for every ratio, slot content, eop/sop predicate and empty arithmetic the
+    accepted beats are grouped (a group ends after `ratio` beats or at eop) and each group comes out as exactly one wide beat
+    that carries sop iff a beat of the group did; the output keeps the interface law — sop included — while it is offered -/
+theorem widthExtend_preserves {α β δ : Type} (ratio : Nat) (d0 : δ) (slotOf : α → δ) (isEop isSop : α → Bool) (empOf : α → Nat)
+    (start step emod : Nat) (mk : List δ → Bool → Nat → α → β) :
+    Good (widthExtendP ratio d0 slotOf isEop isSop empOf start step emod mk)
+      (pExtSpec ratio d0 slotOf isEop isSop empOf start step emod mk) okTrue :=
+  good_widthExtendP ratio d0 slotOf isEop isSop empOf start step emod mk
+
+theorem widthExtend_concrete_preserves (ratio w bw ek ew : Nat) :
+    Good (Desc.pext ratio w bw ek ew).stage
+      (pExtSpec ratio (0, 0) extSlot Beat.eop Beat.sop Beat.emp (pExtStart ratio w ek) (emptyUnit ek w) (pExtMod ratio w ek ew) (pExtMk w bw)) okTrue :=
+  good_widthExtendP ..
+
+/-- the framing law through `widthExtend`: if the accepted narrow beats carry sop exactly on the first beat after an eop,
+    so do the wide beats (with `widthExtend_concrete_preserves`: the wide beats the stage emits) -/
+theorem widthExtend_keeps_framing (ratio w bw ek ew : Nat) (l : List Beat) (h : framedFrom false l = true) :
+    framedFrom false ((pExtSpec ratio (0, 0) extSlot Beat.eop Beat.sop Beat.emp (pExtStart ratio w ek) (emptyUnit ek w)
+      (pExtMod ratio w ek ew) (pExtMk w bw)).run l) = true :=
+  pExt_framed ratio w bw ek ew l h
 
 /-! ### compositions -/
 
